@@ -105,9 +105,8 @@ CHECKS = {
             "trusted: the sequence-merging rule stated in the property; smf.py to confirm the base files are valid before corruption", "4 C17"),
     "C18": ("hook events of a recording Sequencer subclass and a recording observer checked offline against a per-voice interval model in virtual time",
             "Exploration: 1 500 / 50 000 playbacks (note, container, bar, track, parallel bars/tracks/compositions with 1-4 tracks, equal and "
-            "unequal rhythms, tuplets, rests, tempo-carrying containers), control-change grid around the bounds, attach/detach scripts. Two "
-            "known findings (unequal rhythms, float tick drift in play_Bars) are attributed by input shape and exact alternative model; "
-            "everything else must match exactly.",
+            "unequal rhythms, tuplets, rests, tempo-carrying containers), control-change grid around the bounds, attach/detach scripts; the "
+            "two former findings of play_Bars (unequal rhythms, float tick drift) are replayed as fixed regression inputs in every run.",
             "trusted: interval model (rv/props/c18.py model_parallel); virtual time = running sum of sleep arguments", "4 C18"),
     "C19": ("LilyPond and MusicXML text decoded by independent readers (own tokenizer/parser; xml.etree) and compared with the written specification",
             "Exploration: 3 000 / 100 000 random notes, containers, bars, tracks, compositions (names to double accidentals, octaves 0-8, 30 "
